@@ -24,10 +24,18 @@ TRUSTED = [
     "zoneinfo.ZoneInfo / datetime.timezone utcoffset() (with fold) and exact integer arithmetic are the specification side of the oracle; no cross-zone == is used",
     "Spec/Zone.v as the model of zoneinfo's utcoffset() (validated at every probe by C02's zone-spec stream and here through every aware endpoint)",
     "Spec/TdFloat.v (SpecFloat binary64) as the meaning of timedelta.total_seconds(), timedelta(seconds=float), float / and int(): validated bit for bit by C09's tdfloat-* streams and here through every case",
-    "float premises of the *_partial theorems (NOT proved in Coq, explicit hypotheses, validated on every run because the model executes the real float pipeline and the oracle uses exact integers): "
+    "float premises of the *_partial theorems (explicit hypotheses there, validated on every run because the model executes the real float pipeline and the oracle uses exact integers; "
+    "they are THEOREMS — Props/C05.v float_premises_hold, Proofs/FloatRoundTrip*.v through Flocq — and every *_partial theorem is restated without premise): "
     "Hrt = timedelta(seconds=td.total_seconds()) == td for |td| < 2^33 s; H64 = the same round trip is within 64 us for |td| <= 3652059 days; C09's float_split_exact_on_D9; "
     "Hdiv60/Hdiv3600 = int(td.total_seconds() / unit) is the truncated quotient for |td| < 2^33 s",
     "identity of tzinfo objects is supplied by the harness as integers (pendulum.timezone(name) / fixed_timezone(off) / UTC are cached singletons; the harness keeps them alive and checks `is`)",
+]
+TRUSTED += [
+    "Flocq (installed library) correctness theorems for binary64 operations, bridged to Coq's SpecFloat in coq/Proofs/FloatRoundTripBase.v",
+    "standard-library axioms reported by Print Assumptions for the unconditional float theorems only (interval_length_exact, interval_length_exact_abs, interval_length_exact_naive_date, "
+    "interval_length_64, swap_negates_length, in_seconds_minutes_hours_trunc, sub_native_same_length_exact, float_premises_hold): ClassicalDedekindReals.sig_not_dec, "
+    "ClassicalDedekindReals.sig_forall_dec, FunctionalExtensionality.functional_extensionality_dep, Classical_Prop.classic (the real-number axioms Flocq and Reals rest on); "
+    "the integer theorems and the *_partial forms are closed under the global context",
 ]
 ASSUMPTIONS = [
     "endpoints are DateTimes that denote valid local times (pendulum never produces a skipped wall time); stdlib operands on a skipped wall time are first normalised by instance() as documented (C02)",
@@ -631,10 +639,10 @@ LEVEL_TEXT = ("Machine-checked Coq theorems about the executable model of Interv
               "rendered from instants in well-formed zones it is the difference of those instants (PEP 495 round trip); swapping negates; naive / date pairs give the wall difference; "
               "the only exception is the OverflowError of the hand-made offset removal at the year-1/9999 edge (refuted witness + exact characterisation); absolute=True gives the magnitude "
               "except when both operands share the tzinfo object and their wall order differs from their instant order (refuted witness in a repeated hour + partial theorem outside that region). "
-              "The float part (exact below 2^33 s, within 64 us beyond, in_seconds/minutes/hours = truncation) is proved from explicit float round-trip premises (SpecFloat, not proved against Flocq) "
-              "and by kernel computation on boundary families. The model is tied to /repo by correspondence on every transition kind x zone-pair kind x fold x entry point, both backends; "
+              "The float part (length exact below 2^33 s, within 64 us over the whole calendar, in_seconds/minutes/hours = truncation toward zero) is proved unconditionally: the float round-trip "
+              "premises are theorems through Flocq's binary64 correctness (standard real-number axioms), the premise-carrying *_partial forms are kept, plus kernel computation on boundary families. The model is tied to /repo by correspondence on every transition kind x zone-pair kind x fold x entry point, both backends; "
               "the oracle recomputes the elapsed time with zoneinfo utcoffsets and exact integers.")
 DESIGN_REF = "DESIGN.md section 4 C05, section 3.2, 3.3"
 LEVEL_NOTE = ("Trusted: Coq kernel+VM; Spec/Zone.v as a model of zoneinfo and Spec/TdFloat.v as a model of CPython floats/timedelta (both validated on every run); the hand model "
-              "Model/IntervalLen.v (validated by correspondence, both backends); the float premises Hrt/H64/Hsplit/Hdiv are explicit hypotheses of the *_partial theorems, validated on every run.")
-TECHNIQUE = "Coq proof (lia over the zone model; float part from explicit premises + vm_compute boundary families) + differential correspondence around every tz transition + stdlib integer oracle"
+              "Model/IntervalLen.v (validated by correspondence, both backends); the float premises Hrt/H64/Hsplit/Hdiv are proved (Flocq; real-number axioms of the standard library), so the length theorems hold unconditionally.")
+TECHNIQUE = "Coq proof (lia over the zone model; float part through Flocq's binary64 correctness + vm_compute boundary families) + differential correspondence around every tz transition + stdlib integer oracle"
